@@ -11,7 +11,7 @@ import (
 
 func init() { register("Committee", genCommittee) }
 
-// genCommittee translates the two decision pieces of committee derivation that the C13/C02 theorems
+// genCommittee translates the decision pieces of committee derivation that the C13/C02 theorems
 // are stated about: the sort comparator inside fsm.getValidatorSet and the +2/3 threshold expression
 // of lib.NewValidatorSet. Everything else of getValidatorSet (filter, limit, member construction) is
 // a hand model tied by the correspondence run.
@@ -21,7 +21,19 @@ func genCommittee() (string, error) {
 	b.WriteString(`/-- the fields of fsm.Validator read by the comparator, with the Go field names -/
 structure GoValidator where
   Address : Bytes
+  PublicKey : Bytes
   StakedAmount : UInt64
+  Committees : List UInt64
+  MaxPausedHeight : UInt64
+  UnstakingHeight : UInt64
+  Delegate : Bool
+
+/-- lib.ValidatorFilters (FilterOption is an int enum) -/
+structure GoFilters where
+  Unstaking : Nat
+  Paused : Nat
+  Delegate : Nat
+  Committee : UInt64
 
 /-- cmp.Compare on uint64 -/
 def cmpU64 (x y : UInt64) : Int := if x < y then -1 else if y < x then 1 else 0
@@ -80,6 +92,9 @@ def cmpBytes : Bytes → Bytes → Int
 	b.WriteString("/-- the comparator passed to slices.SortFunc in fsm.getValidatorSet (negative: a first) -/\n")
 	b.WriteString(txt)
 	fmt.Fprintf(&b, "\n/-- the filter literal used to select committee members -/\ndef filterLiteral : String := %q\n", filterLit)
+	if err := genFilterPieces(&b, vf, fd); err != nil {
+		return "", err
+	}
 
 	// --- threshold
 	cf, err := g.ParseFile(filepath.Join(*repo, "lib/consensus.go"))
@@ -129,4 +144,211 @@ def cmpBytes : Bytes → Bytes → Int
 	fmt.Fprintf(&b, "\n/-- the partial-certificate decision in AggregateSignature.Check -/\ndef partialDecision : String := %q\n", cmpSrc)
 	b.WriteString("\nend Canopy.Gen.Committee\n")
 	return b.String(), nil
+}
+
+
+// genFilterPieces translates the rest of getValidatorSet's decision logic: the FilterOption constants,
+// Validator.PassesFilter (tagless switches desugared to if-chains), the filter literal as a value, the
+// choice of cap and delegate filter by `delegate`, the limit computation, the slice the members are
+// built from, the member fields, and the normalised source of the statement that builds `filtered`.
+func genFilterPieces(b *strings.Builder, vf *g.File, fd *ast.FuncDecl) error {
+	// --- FilterOption constants (lib/consensus.go)
+	cf, err := g.ParseFile(filepath.Join(*repo, "lib/consensus.go"))
+	if err != nil {
+		return err
+	}
+	opts := map[string]string{}
+	for _, d := range cf.AST.Decls {
+		gd, ok := d.(*ast.GenDecl)
+		if !ok || gd.Tok.String() != "const" {
+			continue
+		}
+		for _, sp := range gd.Specs {
+			vs := sp.(*ast.ValueSpec)
+			for i, n := range vs.Names {
+				if strings.HasPrefix(n.Name, "FilterOption_") && i < len(vs.Values) {
+					if lit, ok := vs.Values[i].(*ast.BasicLit); ok {
+						opts[n.Name] = lit.Value
+					}
+				}
+			}
+		}
+	}
+	for _, n := range []string{"FilterOption_Off", "FilterOption_MustBe", "FilterOption_Exclude"} {
+		v, ok := opts[n]
+		if !ok {
+			return fmt.Errorf("lib/consensus.go: constant %s with a literal value not found", n)
+		}
+		fmt.Fprintf(b, "\ndef %s : Nat := %s", n, v)
+	}
+	b.WriteString("\n")
+	idents := map[string]string{
+		"lib.FilterOption_Off": "FilterOption_Off", "lib.FilterOption_MustBe": "FilterOption_MustBe", "lib.FilterOption_Exclude": "FilterOption_Exclude",
+	}
+	// --- PassesFilter
+	pf := vf.FindFunc("Validator", "PassesFilter")
+	if pf == nil {
+		return fmt.Errorf("fsm/validator.go: Validator.PassesFilter not found")
+	}
+	if _, ok := g.NamedResultNeverAssigned(pf); !ok {
+		return fmt.Errorf("PassesFilter: expected one named result that is never assigned (bare return = false)")
+	}
+	body, err := g.Desugar(pf.Body.List, ast.NewIdent("false"))
+	if err != nil {
+		return fmt.Errorf("PassesFilter: %v", err)
+	}
+	trF := &g.Translator{Cfg: g.Config{
+		Types:    map[string]string{"lib.ValidatorFilters": "GoFilters", "bool": "Bool"},
+		RecvType: "GoValidator",
+		Calls:    map[string]func([]string) (string, error){"slices.Contains": g.App("List.contains")},
+		Idents:   idents,
+	}}
+	txt, err := trF.Func(&ast.FuncDecl{Recv: pf.Recv, Name: pf.Name, Type: pf.Type, Body: &ast.BlockStmt{List: body}}, "passesFilter")
+	if err != nil {
+		return err
+	}
+	b.WriteString("\n/-- fsm.Validator.PassesFilter (tagless switches rendered as if-chains; bare return = false) -/\n" + txt)
+
+	// --- pieces of getValidatorSet
+	var defStmt, setStmt *ast.AssignStmt // maxPerCommittee, delegateFilter := … ; if delegate { … = … }
+	var setCond string
+	var limDef *ast.AssignStmt
+	var limIf *ast.IfStmt
+	var filteredStmt *ast.AssignStmt
+	var rangeSrc string
+	var member *ast.CompositeLit
+	var filterLit *ast.CompositeLit
+	assigns := map[string]int{}
+	isPair := func(a *ast.AssignStmt) bool {
+		return len(a.Lhs) == 2 && g.ExprText(a.Lhs[0]) == "maxPerCommittee" && g.ExprText(a.Lhs[1]) == "delegateFilter" && len(a.Rhs) == 2
+	}
+	for _, st := range fd.Body.List {
+		switch v := st.(type) {
+		case *ast.AssignStmt:
+			if isPair(v) && v.Tok.String() == ":=" {
+				defStmt = v
+			}
+			if len(v.Lhs) == 1 && g.ExprText(v.Lhs[0]) == "limit" && v.Tok.String() == ":=" {
+				limDef = v
+			}
+			if len(v.Lhs) == 1 && g.ExprText(v.Lhs[0]) == "filtered" && v.Tok.String() == ":=" {
+				filteredStmt = v
+			}
+		case *ast.IfStmt:
+			if len(v.Body.List) == 1 && v.Else == nil {
+				if a, ok := v.Body.List[0].(*ast.AssignStmt); ok {
+					if isPair(a) && a.Tok.String() == "=" {
+						setStmt, setCond = a, g.ExprText(v.Cond)
+					}
+					if len(a.Lhs) == 1 && g.ExprText(a.Lhs[0]) == "limit" && a.Tok.String() == "=" {
+						limIf = v
+					}
+				}
+			}
+		case *ast.RangeStmt:
+			if strings.HasPrefix(g.ExprText(v.X), "filtered") {
+				rangeSrc = g.ExprText(v.X)
+			}
+		}
+	}
+	ast.Inspect(fd.Body, func(n ast.Node) bool {
+		switch v := n.(type) {
+		case *ast.AssignStmt:
+			for _, l := range v.Lhs {
+				assigns[g.ExprText(l)]++
+			}
+		case *ast.CompositeLit:
+			switch g.ExprText(v.Type) {
+			case "lib.ConsensusValidator":
+				member = v
+			case "lib.ValidatorFilters":
+				filterLit = v
+			}
+		}
+		return true
+	})
+	if defStmt == nil || setStmt == nil || setCond != "delegate" || assigns["maxPerCommittee"] != 2 || assigns["delegateFilter"] != 2 {
+		return fmt.Errorf("getValidatorSet: expected `maxPerCommittee, delegateFilter := a, b; if delegate { … = c, d }` and no other assignment to them")
+	}
+	if limDef == nil || limIf == nil || assigns["limit"] != 2 {
+		return fmt.Errorf("getValidatorSet: expected `limit := …; if … { limit = … }` and no other assignment to limit")
+	}
+	if filteredStmt == nil || assigns["filtered"] != 1 || member == nil || filterLit == nil {
+		return fmt.Errorf("getValidatorSet: expected one `filtered := …`, one lib.ConsensusValidator literal and one lib.ValidatorFilters literal")
+	}
+	trG := &g.Translator{Cfg: g.Config{
+		Calls: map[string]func([]string) (string, error){"min": g.App("min"), "lib.FilterOption": g.App("")},
+		Idents: map[string]string{
+			"lib.FilterOption_Off": "FilterOption_Off", "lib.FilterOption_MustBe": "FilterOption_MustBe", "lib.FilterOption_Exclude": "FilterOption_Exclude",
+			"p.MaxCommitteeSize": "MaxCommitteeSize", "p.MaximumDelegatesPerCommittee": "MaximumDelegatesPerCommittee",
+			"uint64(len(filtered))": "n",
+		},
+	}}
+	ex := func(e ast.Expr) (string, error) { return trG.Expr(e) }
+	a0, err := ex(defStmt.Rhs[0])
+	if err != nil {
+		return err
+	}
+	a1, err := ex(defStmt.Rhs[1])
+	if err != nil {
+		return err
+	}
+	c0, err := ex(setStmt.Rhs[0])
+	if err != nil {
+		return err
+	}
+	c1, err := ex(setStmt.Rhs[1])
+	if err != nil {
+		return err
+	}
+	fmt.Fprintf(b, "\n/-- `maxPerCommittee` as getValidatorSet selects it -/\ndef selectCap (delegate : Bool) (MaxCommitteeSize MaximumDelegatesPerCommittee : UInt64) : UInt64 :=\n  if delegate then %s else %s\n", c0, a0)
+	fmt.Fprintf(b, "\n/-- `delegateFilter` as getValidatorSet selects it -/\ndef selectDelegateFilter (delegate : Bool) : Nat :=\n  if delegate then %s else %s\n", c1, a1)
+	// filter literal as a value
+	fields := map[string]string{}
+	for _, el := range filterLit.Elts {
+		kv, ok := el.(*ast.KeyValueExpr)
+		if !ok {
+			return fmt.Errorf("ValidatorFilters literal: positional element")
+		}
+		val := kv.Value
+		if c, ok := val.(*ast.CallExpr); ok && g.ExprText(c.Fun) == "lib.FilterOption" && len(c.Args) == 1 {
+			val = c.Args[0] // a type conversion
+		}
+		x, err := ex(val)
+		if err != nil {
+			return err
+		}
+		fields[g.ExprText(kv.Key)] = x
+	}
+	get := func(k, dflt string) string {
+		if v, ok := fields[k]; ok {
+			return v
+		}
+		return dflt
+	}
+	fmt.Fprintf(b, "\n/-- the lib.ValidatorFilters literal passed to PassesFilter, as a value -/\ndef committeeFilter (delegateFilter : Nat) (chainId : UInt64) : GoFilters :=\n  { Unstaking := %s, Paused := %s, Delegate := %s, Committee := %s }\n",
+		get("Unstaking", "FilterOption_Off"), get("Paused", "FilterOption_Off"), get("Delegate", "FilterOption_Off"), get("Committee", "0"))
+	// limit
+	limFn := &ast.FuncDecl{Name: ast.NewIdent("limitOf"), Type: &ast.FuncType{
+		Params:  &ast.FieldList{List: []*ast.Field{{Names: []*ast.Ident{ast.NewIdent("n"), ast.NewIdent("maxPerCommittee")}, Type: ast.NewIdent("uint64")}}},
+		Results: &ast.FieldList{List: []*ast.Field{{Type: ast.NewIdent("uint64")}}},
+	}, Body: &ast.BlockStmt{List: []ast.Stmt{limDef, limIf, &ast.ReturnStmt{Results: []ast.Expr{ast.NewIdent("limit")}}}}}
+	trG.Cfg.Types = map[string]string{"uint64": "UInt64"}
+	ltxt, err := trG.Func(limFn, "limitOf")
+	if err != nil {
+		return err
+	}
+	b.WriteString("\n/-- the number of members taken: `limit` of getValidatorSet with n = uint64(len(filtered)) -/\n" + ltxt)
+	fmt.Fprintf(b, "\n/-- the slice the members are built from -/\ndef memberRange : String := %q\n", rangeSrc)
+	var mf []string
+	for _, el := range member.Elts {
+		if kv, ok := el.(*ast.KeyValueExpr); ok {
+			mf = append(mf, fmt.Sprintf("(%q, %q)", g.ExprText(kv.Key), g.ExprText(kv.Value)))
+		}
+	}
+	fmt.Fprintf(b, "\n/-- the fields of each lib.ConsensusValidator built from a filtered validator `v` -/\ndef memberFields : List (String × String) := [%s]\n", strings.Join(mf, ", "))
+	// the statement that builds `filtered`, with the filter literal abstracted
+	fs := strings.Replace(g.StmtText(filteredStmt), g.ExprText(filterLit), "<FILTER>", 1)
+	fmt.Fprintf(b, "\n/-- normalised source of the statement that builds `filtered` (a fresh slice: the cached validator list is never filtered in place) -/\ndef filteredSrc : String := %q\n", fs)
+	return nil
 }
